@@ -73,3 +73,432 @@ Proof.
   intros (HF & _) Hl Hno p q c Hin Hq. destruct (HF hk h p q c Hl Hin Hq) as [A B]. split; [split; [exact A|intros j; apply B; tauto]|].
   intros m ->. exfalso. eapply Hno; eauto.
 Qed.
+
+(* ---------- static facts about handlers ---------- *)
+Definition pkind (p : rparam) : option (bool * query) := match p with RRecvT _ q _ => Some (true, q) | RFetch _ q _ => Some (false, q) | _ => None end.
+Definition pks (h : hinfo) : list (option (bool * query)) := map pkind (h_params h).
+Definition hview3 (h : hinfo) := (hstat h, pks h).
+Definition hv3 (w : world) := sview hview3 (w_hs w).
+
+(* the filter of a handler implies each of its targeted-receiver queries; a handler of a global event has no targeted receiver *)
+Definition Phi (h : hinfo) : Prop :=
+  (forall q, In (Some (true, q)) (pks h) -> forall has, ca_matches has (h_filter h) = true -> ca_matches has (access_of q) = true) /\
+  (forall ek, h_recv h = RvGlobal ek -> forall q, ~ In (Some (true, q)) (pks h)).
+Definition SInv (w : world) : Prop := forall hk h, hlive w hk h -> Phi h.
+
+Lemma Phi_view h h' : hview3 h' = hview3 h -> Phi h -> Phi h'.
+Proof.
+  unfold hview3. intros E [A B]. assert (Es : hstat h' = hstat h) by congruence. assert (Ep : pks h' = pks h) by congruence.
+  assert (Ef : h_filter h' = h_filter h) by exact (f_equal h_filter Es). assert (Er : h_recv h' = h_recv h) by exact (f_equal h_recv Es).
+  split; [intros q Hin has Hm; rewrite Ep in Hin; rewrite Ef in Hm; eauto|]. intros ek Hr q Hin. rewrite Ep in Hin. rewrite Er in Hr. eapply B; eauto.
+Qed.
+
+Definition hs_le (w' w : world) : Prop := forall hk h', hlive w' hk h' -> exists h, hlive w hk h /\ hview3 h' = hview3 h.
+Lemma hs_le_refl w : hs_le w w. Proof. intros hk h H. eauto. Qed.
+Lemma hs_le_trans a b c : hs_le a b -> hs_le b c -> hs_le a c.
+Proof. intros H1 H2 hk h X. destruct (H1 hk h X) as (h1 & A & B). destruct (H2 hk h1 A) as (h2 & C & D). exists h2. split; [exact C|congruence]. Qed.
+Lemma hs_le_hv3 w' w : hv3 w' = hv3 w -> hs_le w' w.
+Proof.
+  unfold hv3. intros Hv hk h' Hl. unfold hlive in *. pose proof (sview_get hview3 (w_hs w) (w_hs w') hk Hv) as E. rewrite Hl in E.
+  destruct (sm_get hk (w_hs w)) as [h|]; cbn in E; [|discriminate]. exists h. split; [reflexivity|congruence].
+Qed.
+Lemma SInv_le w' w : hs_le w' w -> SInv w -> SInv w'.
+Proof. intros Hle HS hk h' Hl. destruct (Hle hk h' Hl) as (h & A & B). eapply Phi_view; eauto. Qed.
+
+Lemma pks_refresh ai a h : pks (h_refresh ai a h) = pks h.
+Proof. unfold pks, h_refresh. cbn [h_params set_params]. rewrite map_map. apply map_ext. intros p. destruct p; cbn [param_refresh pkind]; try reflexivity; destruct (arch_state (arch_has a) q); reflexivity. Qed.
+Lemma pks_remove ai h : pks (h_remove_arch ai h) = pks h.
+Proof. unfold pks, h_remove_arch. cbn [h_params set_params]. rewrite map_map. apply map_ext. intros p. destruct p; reflexivity. Qed.
+Lemma hview3_register ai a h : hview3 (snd (register_handler ai a h)) = hview3 h.
+Proof.
+  unfold hview3. rewrite hstat_register. f_equal. unfold pks. rewrite reg_params. destruct (_ && _); [|reflexivity].
+  rewrite map_map. apply map_ext. intros p. destruct p; cbn [param_refresh pkind]; try reflexivity; destruct (arch_state (arch_has a) q); reflexivity.
+Qed.
+
+Lemma hv3_notify_refresh w ai : hv3 (notify_refresh w ai) = hv3 w.
+Proof.
+  unfold hv3, notify_refresh. destruct (slab_get (w_archs w) ai) as [a|]; [|reflexivity]. cbn [w_hs set_hs].
+  apply (sview_fold_upd_key hview3 (fun _ => h_refresh ai a)). intros k v. unfold hview3. now rewrite hstat_refresh, pks_refresh.
+Qed.
+Lemma hv3_notify_remove_with w ai a : hv3 (notify_remove_with w ai a) = hv3 w.
+Proof.
+  unfold hv3, notify_remove_with. cbn [w_hs set_hs]. apply (sview_fold_upd_key hview3 (fun _ => h_remove_arch ai)). intros k v. unfold hview3. now rewrite hstat_remove_arch, pks_remove.
+Qed.
+Lemma hv3_reg_fold ai l : forall a hs, sview hview3 (snd (fold_left (reg_step ai) l (a, hs))) = sview hview3 hs.
+Proof.
+  induction l as [|[o hk] l IH]; intros a hs; cbn [fold_left]; [reflexivity|].
+  change (reg_step ai (a, hs) (o, hk)) with (match sm_get hk hs with Some h => let '(a', h') := register_handler ai a h in (a', upd_by_key hs hk (fun _ => h')) | None => (a, hs) end).
+  destruct (sm_get hk hs) as [h|] eqn:E; [|apply IH]. pose proof (hview3_register ai a h) as Hs. destruct (register_handler ai a h) as [a' h']. cbn [snd] in Hs.
+  rewrite IH. eapply sview_upd_key_at; [exact E|exact Hs].
+Qed.
+Lemma hv3_create_arch w cs ins rem : hv3 (snd (create_arch w cs ins rem)) = hv3 w.
+Proof. destruct (create_arch_reg w cs ins rem) as (A & _). unfold hv3. rewrite A. apply hv3_reg_fold. Qed.
+
+Ltac h3fr := intros; first [reflexivity | apply hv3_notify_refresh | apply hv3_notify_remove_with | apply hv3_create_arch].
+
+Section H3.
+Variable beh : hinfo -> logent -> N -> script.
+
+Lemma hv3_flush q w : hv3 (res_world (flush beh q w)) = hv3 w.
+Proof.
+  unfold flush, flush_loop. destruct (Loop.flush wst qitem (run_w beh) unwind_w FUEL q (w, None) []) as [[[tr [w1 fl]] oc]|] eqn:E; [|reflexivity].
+  pose proof (flush_frame hv3 ltac:(h3fr) ltac:(h3fr) ltac:(h3fr) ltac:(h3fr) ltac:(h3fr) ltac:(h3fr) ltac:(h3fr) ltac:(h3fr) beh _ _ _ _ _ _ E) as H. cbn [fst] in H.
+  destruct oc; [exact H|destruct fl; exact H].
+Qed.
+End H3.
+
+Lemma hs_le_hs w' w : w_hs w' = w_hs w -> hs_le w' w.
+Proof. intros E. apply hs_le_hv3. unfold hv3. now rewrite E. Qed.
+
+Lemma rbind_le {A B} (r : res A) (f : A -> world -> res B) w :
+  hs_le (res_world r) w -> (forall a w1, hs_le (res_world (f a w1)) w1) -> hs_le (res_world (rbind r f)) w.
+Proof. intros H1 H2. destruct r as [a w1|e w1]; cbn [rbind res_world] in *; [eapply hs_le_trans; eauto|exact H1]. Qed.
+
+Lemma sm_remove_le {V} (m m' : smap V) k v x y : sm_remove k m = Some (v, m') -> sm_get x m' = Some y -> sm_get x m = Some y.
+Proof.
+  unfold sm_remove, sm_get. destruct (sget (slots m) (fst k)) as [s|] eqn:Es; [|discriminate]. destruct (gen s =? snd k); [|discriminate]. destruct (val s) as [v0|]; [|discriminate].
+  intros H. destruct (N.eq_dec (fst x) (fst k)) as [E|E].
+  - rewrite E. destruct (wrap_succ (gen s) =? 0); inversion H; subst; cbn [slots]; erewrite sget_supd_eq by eauto; cbn [gen val]; destruct (_ =? snd x); discriminate.
+  - destruct (wrap_succ (gen s) =? 0); inversion H; subst; cbn [slots]; now rewrite sget_supd_neq by auto.
+Qed.
+
+Section LeOps.
+Variable beh : hinfo -> logent -> N -> script.
+
+Lemma hs_le_flush q w : hs_le (res_world (flush beh q w)) w.
+Proof. apply hs_le_hv3, hv3_flush. Qed.
+
+Lemma hs_le_gev fuel : forall tag w,
+  hs_le (res_world (add_global_event beh fuel tag w)) w /\ forall ev, hs_le (res_world (send_global beh fuel tag ev w)) w.
+Proof.
+  induction fuel as [|f IH]; intros tag w; [split; [apply hs_le_refl|intros; apply hs_le_refl]|].
+  assert (Hadd : hs_le (res_world (add_global_event beh (S f) tag w)) w).
+  { rewrite add_global_event_S. destruct (alookup tag (w_gby w)); [apply hs_le_refl|].
+    destruct (insert_with (fun _ => mkE tag (gkind tag)) (w_gev w)) as [[k m]|]; [|apply hs_le_refl]. cbn zeta.
+    set (w2 := set_glists _ _). destruct (IH G_ADDGE w2) as [_ Hs]. specialize (Hs (mkEv 0 0 k)).
+    destruct (send_global beh f G_ADDGE (mkEv 0 0 k) w2); cbn [rbind res_world] in *; (eapply hs_le_trans; [exact Hs|now apply hs_le_hs]). }
+  split; [exact Hadd|]. intros ev. rewrite send_global_S. destruct (IH tag w) as [Ha _].
+  destruct (add_global_event beh f tag w) as [k w1|e w1]; cbn [res_world] in *.
+  - eapply hs_le_trans; [apply hs_le_flush|]. destruct (10 <? tag); [eapply hs_le_trans; [|exact Ha]; now apply hs_le_hs|exact Ha].
+  - eapply hs_le_trans; [|exact Ha]. apply hs_le_hs. unfold ev_drop, drop_cval. repeat break_match; reflexivity.
+Qed.
+Lemma hs_le_send_global tag ev w : hs_le (res_world (send_global beh RFUEL tag ev w)) w.
+Proof. exact (proj2 (hs_le_gev RFUEL tag w) ev). Qed.
+Lemma hs_le_add_global_event tag w : hs_le (res_world (add_global_event beh RFUEL tag w)) w.
+Proof. exact (proj1 (hs_le_gev RFUEL tag w)). Qed.
+
+Lemma hs_le_add_component tag w : hs_le (res_world (add_component beh tag w)) w.
+Proof.
+  unfold add_component. destruct (alookup tag (w_cby w)); [apply hs_le_refl|]. destruct (insert_with _ (w_comps w)) as [[k m]|]; [|apply hs_le_refl].
+  apply rbind_le; [|intros; apply hs_le_refl]. eapply hs_le_trans; [apply hs_le_send_global|now apply hs_le_hs].
+Qed.
+Lemma hs_le_tev_stage1 tag w : hs_le (res_world (tev_stage1 beh tag w)) w.
+Proof.
+  unfold tev_stage1. destruct ((20 <=? tag) && (tag <? 40)); [apply rbind_le; [apply hs_le_add_component|intros; apply hs_le_refl]|].
+  destruct ((40 <=? tag) && (tag <? 60)); [apply rbind_le; [apply hs_le_add_component|intros; apply hs_le_refl]|]. destruct (tag =? T_DESPAWN); apply hs_le_refl.
+Qed.
+Lemma hs_le_add_targeted_event tag w : hs_le (res_world (add_targeted_event beh tag w)) w.
+Proof.
+  rewrite add_targeted_event_unfold. apply rbind_le; [apply hs_le_tev_stage1|]. intros kind w0.
+  destruct (alookup tag (w_tby w0)); [apply hs_le_refl|]. destruct (insert_with _ (w_tev w0)) as [[k m]|]; [|apply hs_le_refl].
+  apply rbind_le; [|intros; apply hs_le_refl]. eapply hs_le_trans; [apply hs_le_send_global|]. apply hs_le_hs. unfold tev_entry_world. destruct kind; reflexivity.
+Qed.
+Lemma hs_le_send_to tag target ev w : hs_le (res_world (send_to beh tag target ev w)) w.
+Proof.
+  unfold send_to. pose proof (hs_le_add_targeted_event tag w) as H. destruct (add_targeted_event beh tag w) as [k w1|e w1]; cbn [res_world] in *.
+  - eapply hs_le_trans; [apply hs_le_flush|exact H].
+  - eapply hs_le_trans; [|exact H]. apply hs_le_hs. unfold ev_drop, drop_cval. repeat break_match; reflexivity.
+Qed.
+Lemma hs_le_resolve_query q : forall w, hs_le (res_world (resolve_query beh q w)) w.
+Proof.
+  induction q as [c|c|qs IH|q IH|l r IHl IHr|l r IHl IHr|q IH|q IH|q IH|] using query_ind'; intros w; cbn [resolve_query];
+    try (apply rbind_le; [apply hs_le_add_component|intros; apply hs_le_refl]);
+    try (apply rbind_le; [apply IH|intros; apply hs_le_refl]);
+    try (apply rbind_le; [apply IHl|intros ? w1; apply rbind_le; [apply IHr|intros; apply hs_le_refl]]);
+    try apply hs_le_refl.
+  apply rbind_le; [|intros; apply hs_le_refl].
+  revert w. induction IH as [|x t Hx _ IHt]; intros w; [apply hs_le_refl|].
+  apply rbind_le; [apply Hx|]. intros x' w1. apply rbind_le; [apply IHt|intros; apply hs_le_refl].
+Qed.
+Lemma hs_le_register_set evs : forall w, hs_le (res_world (register_set beh evs w)) w.
+Proof.
+  induction evs as [|[t tag] rest IH]; intros w; cbn [register_set]; [apply hs_le_refl|].
+  apply rbind_le; [destruct t; [apply hs_le_add_targeted_event|apply hs_le_add_global_event]|]. intros k w1. apply rbind_le; [apply IH|intros; apply hs_le_refl].
+Qed.
+Lemma hs_le_init_param p c w : hs_le (res_world (init_param beh p c w)) w.
+Proof.
+  destruct p; cbn [init_param].
+  - apply rbind_le; [apply hs_le_add_global_event|intros; apply hs_le_refl].
+  - apply rbind_le; [apply hs_le_add_targeted_event|]. intros k w1. apply rbind_le; [apply hs_le_resolve_query|intros; apply hs_le_refl].
+  - apply rbind_le; [apply hs_le_resolve_query|intros; apply hs_le_refl].
+  - apply rbind_le; [apply hs_le_register_set|intros; apply hs_le_refl].
+Qed.
+Lemma hs_le_init_params ps : forall c w, hs_le (res_world (init_params beh ps c w)) w.
+Proof.
+  induction ps as [|p t IH]; intros c w; cbn [init_params]; [apply hs_le_refl|]. apply rbind_le; [apply hs_le_init_param|]. intros c1 w1. apply IH.
+Qed.
+
+Lemma hs_le_remove_handler k w : hs_le (res_world (remove_handler beh k w)) w.
+Proof.
+  unfold remove_handler. destruct (sm_get k (w_hs w)) as [h0|]; [|apply hs_le_refl]. apply rbind_le; [apply hs_le_send_global|]. intros [] w1.
+  unfold handlers_remove. destruct (sm_remove k (w_hs w1)) as [[h1 hs]|] eqn:Er; [|apply hs_le_refl]. cbn [res_world].
+  intros hk h' Hl. unfold hlive in *. change (w_hs (archs_remove_handler _ h1)) with hs in Hl. exists h'. split; [eapply sm_remove_le; eauto|reflexivity].
+Qed.
+Lemma hs_le_remove_handlers ks : forall w, hs_le (res_world (remove_handlers beh ks w)) w.
+Proof. induction ks as [|k t IH]; intros w; cbn [remove_handlers]; [apply hs_le_refl|]. apply rbind_le; [apply hs_le_remove_handler|]. intros b w1. apply IH. Qed.
+Lemma hs_le_remove_global_event k w : hs_le (res_world (remove_global_event beh k w)) w.
+Proof.
+  unfold remove_global_event. destruct (sm_get k (w_gev w)); [|apply hs_le_refl]. apply rbind_le; [apply hs_le_send_global|]. intros [] w1.
+  apply rbind_le; [apply hs_le_remove_handlers|]. intros [] w2. destruct (sm_remove k (w_gev w2)) as [[info m]|]; [|apply hs_le_refl]. now apply hs_le_hs.
+Qed.
+Lemma hs_le_remove_targeted_event k w : hs_le (res_world (remove_targeted_event beh k w)) w.
+Proof.
+  unfold remove_targeted_event. destruct (sm_get k (w_tev w)); [|apply hs_le_refl]. apply rbind_le; [apply hs_le_send_global|]. intros [] w1.
+  apply rbind_le; [apply hs_le_remove_handlers|]. intros [] w2. destruct (sm_remove k (w_tev w2)) as [[info m]|]; [|apply hs_le_refl]. apply hs_le_hs. destruct (e_kind info); reflexivity.
+Qed.
+Lemma hs_le_remove_tevents ks : forall w, hs_le (res_world (remove_tevents beh ks w)) w.
+Proof. induction ks as [|k t IH]; intros w; cbn [remove_tevents]; [apply hs_le_refl|]. apply rbind_le; [apply hs_le_remove_targeted_event|]. intros b w1. apply IH. Qed.
+
+Lemma hv3_rc_step cidx ctag w ai : hv3 (rc_step cidx ctag w ai) = hv3 w.
+Proof.
+  destruct (slab_get (w_archs w) ai) as [a|] eqn:Ha; [|unfold rc_step; now rewrite Ha]. unfold hv3. rewrite (rc_step_hs cidx ctag w ai a Ha).
+  exact (hv3_notify_remove_with (set_archs w (slab_remove (w_archs w) ai)) ai a).
+Qed.
+Lemma hs_le_archs_remove_component cidx ctag w l : hs_le (archs_remove_component w cidx ctag l) w.
+Proof.
+  rewrite archs_remove_component_unfold. apply hs_le_hv3. change (hv3 (strip cidx (fold_left (rc_step cidx ctag) l w))) with (hv3 (fold_left (rc_step cidx ctag) l w)).
+  apply (fold_left_pres hv3). intros w0 ai. apply hv3_rc_step.
+Qed.
+Lemma hs_le_remove_component k w : hs_le (res_world (remove_component beh k w)) w.
+Proof.
+  unfold remove_component. destruct (sm_get k (w_comps w)); [|apply hs_le_refl]. apply rbind_le; [apply hs_le_send_global|]. intros [] w1.
+  apply rbind_le; [apply hs_le_add_targeted_event|]. intros dk w2. apply rbind_le; [apply hs_le_flush|]. intros [] w3. apply rbind_le; [apply hs_le_remove_handlers|]. intros [] w4.
+  destruct (sm_get k (w_comps w4)) as [ci|]; [|apply hs_le_refl]. apply rbind_le; [apply hs_le_remove_tevents|]. intros [] w5.
+  destruct (sm_remove k (w_comps w5)) as [[ci' m]|]; [|apply hs_le_refl]. cbn [res_world].
+  eapply hs_le_trans; [|apply (hs_le_hs (set_comps w5 m (aremove (c_tag ci') (w_cby w5))) w5 eq_refl)].
+  change (hs_le (archs_remove_component (set_comps w5 m (aremove (c_tag ci') (w_cby w5))) (fst k) (c_tag ci') (c_member_of ci')) (set_comps w5 m (aremove (c_tag ci') (w_cby w5)))).
+  apply hs_le_archs_remove_component.
+Qed.
+End LeOps.
+
+(* ---------- the configuration collected by init_params: filter implies each targeted query; targeted receivers fix the receiver kind ---------- *)
+Definition CfInv2 (c : hconfig) : Prop :=
+  (forall q, In (Some (true, q)) (map pkind (cf_params c)) -> forall has, ca_matches has (cf_filter c) = true -> ca_matches has (access_of q) = true) /\
+  ((exists q, In (Some (true, q)) (map pkind (cf_params c))) -> match cf_recv c with RcOk (RvTargeted _) | RcInvalid => True | _ => False end).
+
+Lemma CfInv2_cfg0 : CfInv2 cfg0.
+Proof. split; [intros q []|intros (q & [])]. Qed.
+
+Lemma in_pk_app ps p x : In x (map pkind (ps ++ [p])) -> In x (map pkind ps) \/ x = pkind p.
+Proof. rewrite map_app. intros H. apply in_app_or in H as [H|[H|[]]]; auto. Qed.
+
+Section Init2.
+Variable beh : hinfo -> logent -> N -> script.
+
+Lemma init_param_CfInv2 p c w : CfInv2 c -> match init_param beh p c w with ROk c' _ => CfInv2 c' | RFail _ _ => True end.
+Proof.
+  intros [HA HB]. destruct p as [tag m|tag m q|k q|evs]; cbn [init_param].
+  - destruct (add_global_event beh RFUEL tag w) as [k w1|f w1]; cbn [rbind]; [|exact I]. split; cbn [cf_params cf_filter cf_recv].
+    + intros q Hin. apply in_pk_app in Hin as [Hin|Hin]; [now apply HA|discriminate].
+    + intros (q & Hin). apply in_pk_app in Hin as [Hin|Hin]; [|discriminate]. specialize (HB (ex_intro _ q Hin)). unfold cfg_set_recv.
+      destruct (cf_recv c) as [|[ek|ek]|]; try contradiction; cbn [recvid_eqb]; exact I.
+  - destruct (add_targeted_event beh tag w) as [k w1|f w1]; cbn [rbind]; [|exact I]. destruct (resolve_query beh q w1) as [q' w2|f w2]; cbn [rbind]; [|exact I].
+    split; cbn [cf_params cf_filter cf_recv].
+    + intros q0 Hin has Hm. apply in_pk_app in Hin as [Hin|Hin].
+      * specialize (HB (ex_intro _ q0 Hin)). destruct (cf_recv c) as [|rv|]; [contradiction| |]; rewrite ca_and_matches in Hm; apply andb_true_iff in Hm as [Hm _]; eapply HA; eauto.
+      * cbn [pkind] in Hin. inversion Hin; subst q0. destruct (cf_recv c) as [|rv|]; [exact Hm| |]; rewrite ca_and_matches in Hm; apply andb_true_iff in Hm as [_ Hm]; exact Hm.
+    + intros _. unfold cfg_set_recv. destruct (cf_recv c) as [|rv|]; [exact I| |exact I]. destruct (recvid_eqb rv (RvTargeted k)); exact I.
+  - destruct (resolve_query beh q w) as [q' w1|f w1]; cbn [rbind]; [|exact I]. split; cbn [cf_params cf_filter cf_recv].
+    + intros q0 Hin. apply in_pk_app in Hin as [Hin|Hin]; [now apply HA|discriminate].
+    + intros (q0 & Hin). apply in_pk_app in Hin as [Hin|Hin]; [|discriminate]. exact (HB (ex_intro _ q0 Hin)).
+  - destruct (register_set beh evs w) as [r w1|f w1]; cbn [rbind]; [|exact I]. split; cbn [cf_params cf_filter cf_recv].
+    + intros q0 Hin. apply in_pk_app in Hin as [Hin|Hin]; [now apply HA|discriminate].
+    + intros (q0 & Hin). apply in_pk_app in Hin as [Hin|Hin]; [|discriminate]. exact (HB (ex_intro _ q0 Hin)).
+Qed.
+Lemma init_params_CfInv2 ps : forall c w, CfInv2 c -> match init_params beh ps c w with ROk c' _ => CfInv2 c' | RFail _ _ => True end.
+Proof.
+  induction ps as [|p t IH]; intros c w HC; cbn [init_params]; [exact HC|].
+  pose proof (init_param_CfInv2 p c w HC) as H. destruct (init_param beh p c w) as [c1 w1|f w1]; cbn [rbind]; [|exact I]. now apply IH.
+Qed.
+
+Lemma hv3_arh_step hk w x : hv3 (arh_step hk w x) = hv3 w.
+Proof.
+  destruct x as [ai x].
+  change (arh_step hk w (ai, x)) with (match slab_get (w_archs w) ai, sm_get hk (w_hs w) with
+      | Some a, Some h => let '(a', h') := register_handler ai a h in set_hs (set_archs w (slab_set (w_archs w) ai a')) (upd_by_key (w_hs w) hk (fun _ => h'))
+      | _, _ => w end).
+  destruct (slab_get (w_archs w) ai) as [a|]; [|reflexivity]. destruct (sm_get hk (w_hs w)) as [h|] eqn:E; [|reflexivity].
+  pose proof (hview3_register ai a h) as Hs. destruct (register_handler ai a h) as [a' h']. cbn [snd] in Hs.
+  unfold hv3. cbn [w_hs set_hs]. eapply sview_upd_key_at; [exact E|exact Hs].
+Qed.
+Lemma hv3_archs_register_handler w hk : hv3 (archs_register_handler w hk) = hv3 w.
+Proof. rewrite archs_register_handler_unfold. apply (fold_left_pres hv3). intros w0 x. apply hv3_arh_step. Qed.
+
+Theorem add_handler_SInv sh w : DI w -> SInv w -> SInv (res_world (add_handler beh sh w)).
+Proof.
+  intros HD HS. unfold add_handler.
+  destruct (match sh_tid sh with Some t => alookup t (w_hby w) | None => None end); [exact HS|].
+  pose proof (init_params_DI beh (sh_params sh) cfg0 w HD) as HD1. pose proof (init_params_CfInv2 (sh_params sh) cfg0 w CfInv2_cfg0) as HC.
+  pose proof (SInv_le _ _ (hs_le_init_params beh (sh_params sh) cfg0 w) HS) as HS1.
+  destruct (init_params beh (sh_params sh) cfg0 w) as [c w1|f w1]; cbn [rbind res_world] in *; [|exact HS1].
+  destruct (cf_recv c) as [|rv|] eqn:Erv; try exact HS1. destruct (cf_access c) as [acc|]; [|exact HS1].
+  destruct (handler_conflicts (cf_cas c)); [|exact HS1].
+  destruct (insert_with _ (w_hs w1)) as [[k hs]|] eqn:Ei; [|exact HS1].
+  destruct (DI_parts _ HD1) as (_ & ((S & _) & _) & _ & _).
+  match goal with |- context [archs_register_handler ?w2 k] => assert (HS3 : SInv (archs_register_handler w2 k)) end.
+  { eapply SInv_le; [apply hs_le_hv3, hv3_archs_register_handler|]. intros hk h Hl. unfold hlive in Hl. cbn [w_hs set_hreg] in Hl.
+    destruct (key_eq_dec hk k) as [->|Hne].
+    - erewrite insert_get_new in Hl by eauto. inversion Hl; subst h. destruct HC as [HA HB]. split; cbn [pks h_params h_filter h_recv].
+      + exact HA.
+      + intros ek -> q Hin. specialize (HB (ex_intro _ q Hin)). rewrite Erv in HB. exact HB.
+    - erewrite insert_get_other in Hl by eauto. exact (HS1 hk h Hl). }
+  eapply SInv_le; [|exact HS3]. apply rbind_le; [apply hs_le_send_global|intros; apply hs_le_refl].
+Qed.
+
+Lemma hs_le_op_spawn w : hs_le (res_world (op_spawn beh w)) w.
+Proof.
+  unfold op_spawn. apply rbind_le.
+  - unfold reserve. repeat break_match; cbn [res_world]; now apply hs_le_hs.
+  - intros id w1. apply rbind_le; [apply hs_le_send_global|intros; now apply hs_le_hs].
+Qed.
+Lemma hs_le_fresh_serial w : hs_le (snd (fresh_serial w)) w. Proof. now apply hs_le_hs. Qed.
+Lemma hs_le_op_insert e ktag w : hs_le (res_world (op_insert beh e ktag w)) w.
+Proof.
+  unfold op_insert. destruct (new_cval w ktag) as [v w1] eqn:E. eapply hs_le_trans; [apply hs_le_send_to|]. unfold new_cval in E.
+  destruct (ctag_zst ktag); inversion E; subst; [apply hs_le_refl|now apply hs_le_hs].
+Qed.
+Lemma hs_le_op_send gtag w : hs_le (res_world (op_send beh gtag w)) w.
+Proof. unfold op_send. destruct (fresh_serial w) as [s w1] eqn:E. eapply hs_le_trans; [apply hs_le_send_global|]. inversion E; subst. now apply hs_le_hs. Qed.
+Lemma hs_le_op_send_to e ttag w : hs_le (res_world (op_send_to beh e ttag w)) w.
+Proof. unfold op_send_to. destruct (fresh_serial w) as [s w1] eqn:E. eapply hs_le_trans; [apply hs_le_send_to|]. inversion E; subst. now apply hs_le_hs. Qed.
+End Init2.
+
+Definition EI (w : world) : Prop := DI w /\ SInv w.
+Lemma SInv_world0 fuel p : SInv (world0 fuel p).
+Proof. intros hk h H. unfold hlive, world0 in H. cbn [w_hs] in H. discriminate. Qed.
+Lemma run_top_all_EI beh w o : EI w -> EI (run_top_all beh w o).
+Proof.
+  intros [HD HS]. split; [now apply run_top_all_DI|]. destruct o as [o|k]; cbn [run_top_all]; [|eapply SInv_le; [apply hs_le_remove_component|exact HS]].
+  destruct o; cbn [run_top]; try (now apply add_handler_SInv); (eapply SInv_le; [|exact HS]).
+  - apply hs_le_op_spawn. - apply hs_le_op_insert. - apply hs_le_send_to. - apply hs_le_send_to.
+  - apply hs_le_op_send. - apply hs_le_op_send_to. - apply hs_le_remove_handler.
+  - apply hs_le_add_component. - apply hs_le_add_global_event. - apply hs_le_add_targeted_event.
+  - apply hs_le_remove_global_event. - apply hs_le_remove_targeted_event.
+Qed.
+Theorem reachable_EI beh fuel p ops : EI (fold_left (run_top_all beh) ops (world0 fuel p)).
+Proof. apply fold_left_invariant; [split; [apply DI_world0|apply SInv_world0]|]. intros w o. apply run_top_all_EI. Qed.
+
+(* ---------- no handler of a delivery hits an unchecked failure ---------- *)
+Definition ubf (f : option fail) : Prop := match f with Some (FUB _) => True | _ => False end.
+
+Lemma reserve_no_ub w f w1 : reserve w = RFail f w1 -> ~ ubf (Some f).
+Proof. unfold reserve. repeat break_match; intros H; inversion H; subst; cbn; tauto. Qed.
+
+Lemma run_actions_no_ub acts : forall ps t fresh sent w, ~ ubf (snd (run_actions acts ps t fresh sent w)).
+Proof.
+  induction acts as [|a rest IH]; intros ps t fresh sent w; cbn [run_actions]; [cbn; tauto|].
+  destruct (use_fuel w) as [ok w0]. destruct (negb ok); [apply IH|].
+  destruct a; repeat (break_match; try apply IH; try (cbn; tauto));
+    match goal with H : reserve _ = RFail _ _ |- _ => exact (reserve_no_ub _ _ _ H) end.
+Qed.
+
+Lemma params_ready_sl w w' ps loc : structureL w' = structureL w -> params_ready w ps loc -> params_ready w' ps loc.
+Proof.
+  intros Hs Hr p q c Hin Hq. destruct (Hr p q c Hin Hq) as [[Hnd Hg] Hx]. destruct (structureL_arch w w' Hs) as (_ & B & _).
+  destruct (structureL_views w w' Hs) as (_ & _ & C). split.
+  - split; [exact Hnd|]. intros j. apply (good_ext w); [apply B|apply Hg].
+  - intros m Hp. destruct (Hx m Hp) as (a & k & vals & Ha & Hm & Hrow).
+    destruct (arch_at_structure w w' C _ _ Ha) as (a' & Ha' & Ec & Er & _).
+    assert (Hn : option_map rshape (nget (a_rows a') (snd loc)) = option_map rshape (nget (a_rows a) (snd loc))) by (rewrite <- !nget_map; now rewrite Er).
+    rewrite Hrow in Hn. destruct (nget (a_rows a') (snd loc)) as [[k' vals']|] eqn:Hrow'; cbn in Hn; [|discriminate].
+    exists a', k', vals'. split; [exact Ha'|]. split; [now rewrite (amatch_comps a a' q Ec)|exact Hrow'].
+Qed.
+
+Lemma access_amatch a q : ca_matches (arch_has a) (access_of q) = true -> amatch a q = true.
+Proof. unfold amatch. rewrite access_matches_qmatch, <- arch_state_iff_qmatch. destruct (arch_state (arch_has a) q); auto. Qed.
+
+Section Deliver.
+Variable beh : hinfo -> logent -> N -> script.
+
+Lemma run_handler_no_ub w h it tag loc : StoreInv w -> params_ready w (h_params h) loc -> ~ ubf (hr_fail (fst (run_handler beh w h it tag loc))).
+Proof.
+  intros Hst Hr. unfold run_handler. pose proof (param_views_ok w (h_params h) loc Hst Hr) as Hp.
+  destruct (param_views w (h_params h) loc) as [f|[ritems views]]; [cbn [fst hr_fail]; destruct f; cbn in *; tauto|].
+  match goal with |- context [run_actions ?a ?b ?c ?d ?e ?x] =>
+    pose proof (run_actions_no_ub a b c d e x) as Hra; destruct (run_actions a b c d e x) as [[sent w3] fl] end.
+  cbn [snd] in Hra. destruct fl as [f|]; [exact Hra|]. destruct (_ =? _); cbn; tauto.
+Qed.
+
+Definition ready_list (w : world) (hl : list key) (loc : eloc) : Prop :=
+  forall hk, In hk hl -> exists h, hlive w hk h /\ params_ready w (h_params h) loc.
+
+Theorem run_handlers_no_ub hl : forall w it tag loc sent, WInv w -> ready_list w hl loc ->
+  ~ ubf (snd (run_handlers beh hl w it tag loc sent)).
+Proof.
+  induction hl as [|hk rest IH]; intros w it tag loc sent HW Hrl; cbn [run_handlers]; [cbn; tauto|].
+  destruct (Hrl hk (or_introl eq_refl)) as (h & Hl & Hr). unfold hlive in Hl. rewrite Hl.
+  pose proof (run_handler_no_ub w h it tag loc (proj1 HW) Hr) as Hh. pose proof (sl_run_handler beh w h it tag loc) as Hs.
+  destruct (run_handler beh w h it tag loc) as [r w1]. cbn [fst snd] in *.
+  destruct (hr_fail r) as [f|]; [exact Hh|]. destruct (hr_taken r); [cbn; tauto|].
+  destruct (structureL_arch w w1 Hs) as (A & _ & _). destruct (structureL_views w w1 Hs) as (_ & _ & C).
+  apply IH; [eapply WInv_structure; eauto|]. intros hk' Hin. destruct (Hrl hk' (or_intror Hin)) as (h' & Hl' & Hr').
+  exists h'. split; [unfold hlive in *; now rewrite A|eapply params_ready_sl; eauto].
+Qed.
+
+(* the handlers a delivery runs can all evaluate their parameters *)
+Theorem delivered_ready w it loc : DI w -> SInv w ->
+  (qi_targeted it = true -> sm_get (qi_target it) (w_ents w) = Some loc) -> ready_list w (delivered_to w it) loc.
+Proof.
+  intros HD HS Hloc hk Hin. destruct (DI_parts _ HD) as (HF & HH & _ & (HFI & _)). destruct HF as [[HW _] _]. destruct HW as (Hst & _).
+  apply (proj2 (delivered_to_exact w it HH)) in Hin. destruct (qi_targeted it).
+  - destruct Hin as (loc' & a & h & ek & He & Ha & Hl & Hrv & _ & Hm). rewrite (Hloc eq_refl) in He. inversion He; subst loc'.
+    exists h. split; [exact Hl|]. intros p q c Hp Hq. destruct (HFI hk h p q c Hl Hp Hq) as [Hnd Hg]. split; [split; [exact Hnd|intros j; apply Hg; tauto]|].
+    intros m ->. destruct (HS hk h Hl) as [P1 _].
+    assert (Hpk : In (Some (true, q)) (pks h)) by (unfold pks; apply in_map_iff; exists (RRecvT m q c); split; [reflexivity|exact Hp]).
+    pose proof (P1 q Hpk _ Hm) as Hma. destruct Hst as (_ & Hlk & _). destruct loc as [ai row]. destruct (Hlk _ _ _ (Hloc eq_refl)) as (a0 & vals & Ha0 & Hrow).
+    cbn [fst snd] in *. rewrite Ha in Ha0. inversion Ha0; subst a0. exists a, (qi_target it), vals. split; [exact Ha|]. split; [now apply access_amatch|exact Hrow].
+  - destruct Hin as (h & ek & Hl & Hrv & _). exists h. split; [exact Hl|]. intros p q c Hp Hq. destruct (HFI hk h p q c Hl Hp Hq) as [Hnd Hg]. split; [split; [exact Hnd|intros j; apply Hg; tauto]|].
+    intros m ->. destruct (HS hk h Hl) as [_ P2]. exfalso. apply (P2 ek Hrv q). unfold pks. apply in_map_iff. exists (RRecvT m q c). split; [reflexivity|exact Hp].
+Qed.
+
+(* a whole delivery: given that the event kind of the queued item is registered (the look-ups at
+   world.rs:1045/1048/1056), nothing in it - archetype look-up, parameter evaluation of every handler,
+   handler actions, the built-in effect - hits an unchecked failure *)
+Theorem deliver_one_no_ub it w : DI w -> SInv w ->
+  (if qi_targeted it then get_by_index (w_tev w) (qi_idx it) <> None
+   else get_by_index (w_gev w) (qi_idx it) <> None /\ nget (w_glists w) (qi_idx it) <> None) ->
+  ~ ubf (snd (deliver_one beh it w)).
+Proof.
+  intros HD HS Hreg. destruct (DI_parts _ HD) as (HF & HH & _ & _). destruct HF as [[HW HG] _].
+  assert (Hfin : forall tag kind loc, (targeted_kind kind = true -> sm_get (qi_target it) (w_ents w) = Some loc) ->
+            (qi_targeted it = true -> sm_get (qi_target it) (w_ents w) = Some loc) ->
+            ~ ubf (snd (let '(w1, ev, sent, taken, fl) := run_handlers beh (delivered_to w it) w it tag loc [] in
+              match fl with
+              | Some f => (sent, (if taken then w1 else ev_drop w1 (qi_targeted it) tag ev), Some f)
+              | None => if taken then (sent, w1, None) else
+                  match kind with
+                  | KNormal => (sent, ev_drop w1 (qi_targeted it) tag ev, None)
+                  | _ => let '(w3, f) := fail_of (builtin_effect kind ev loc w1) in (sent, w3, f)
+                  end
+              end))).
+  { intros tag kind loc Hk Hloc. pose proof (run_handlers_no_ub (delivered_to w it) w it tag loc [] HW (delivered_ready w it loc HD HS Hloc)) as Hn.
+    pose proof (handlers_preserve_structureL beh (delivered_to w it) w it tag loc []) as Hs.
+    destruct (run_handlers beh (delivered_to w it) w it tag loc []) as [[[[w1 ev] sent] taken] fl]. cbn [fst snd] in Hs, Hn.
+    destruct fl as [f|]; [exact Hn|]. destruct taken; [cbn; tauto|].
+    destruct (structureL_views w w1 Hs) as (_ & _ & C). assert (HW1 : WInv w1) by (eapply WInv_structure; eauto).
+    pose proof (builtin_effect_ok kind ev loc w1 (qi_target it) HW1) as Hb. rewrite (structure_ents _ _ C) in Hb. specialize (Hb Hk).
+    destruct kind; try (cbn; tauto); destruct (builtin_effect _ ev loc w1) as [u w3|f w3]; cbn [fail_of snd]; try (cbn; tauto); destruct Hb as [-> _]; cbn; tauto. }
+  unfold deliver_one. fold (delivered_to w it).
+  destruct (qi_targeted it) eqn:Et.
+  - destruct (get_by_index (w_tev w) (qi_idx it)) as [[k info]|]; [|congruence].
+    destruct (sm_get (qi_target it) (w_ents w)) as [loc|] eqn:Hl; [|cbn; tauto].
+    destruct HW as ((_ & Hlk & _) & _). destruct loc as [ai row]. destruct (Hlk _ _ _ Hl) as (a & vals & Ha & _). unfold arch_at in Ha. cbn [fst]. rewrite Ha.
+    pose proof (Hfin (e_tag info) (e_kind info) (ai, row) (fun _ => eq_refl) (fun _ => eq_refl)) as H.
+    unfold delivered_to in H. rewrite Et, Hl in H. cbn [fst] in H. rewrite Ha in H. exact H.
+  - destruct Hreg as [A B]. destruct (get_by_index (w_gev w) (qi_idx it)) as [[k info]|] eqn:Hg; [|congruence].
+    destruct (nget (w_glists w) (qi_idx it)) as [l|] eqn:Hn; [|congruence].
+    assert (Hk : targeted_kind (e_kind info) = true -> sm_get (qi_target it) (w_ents w) = Some (U32MAX, U32MAX)) by (intros X; rewrite (HG _ _ _ Hg) in X; discriminate).
+    pose proof (Hfin (e_tag info) (e_kind info) (U32MAX, U32MAX) Hk ltac:(discriminate)) as H.
+    unfold delivered_to, glist_of in H. rewrite Et, Hn in H. exact H.
+Qed.
+End Deliver.
